@@ -270,6 +270,35 @@ _sched("C03", "Theorems over every accepted trace: after a command failure that 
               "(command level: that shell command's exit status only; task level: exit statuses of its own entries only); exit codes from Gen.Codes: "
               "201 / the command's status with --exit-code for own commands, callees and dependencies (one level + chain lemma). Full status statement "
               "refuted for one corner (a top-level call that became a dedup waiter gets the raw error: exit 1) by a machine-checked counterexample.")
+PROPS["C16"] = {
+    "lean": "Props.C16", "domains": [{"name": "decode", "env": {"TASK_X_REMOTE_TASKFILES": "1"}}],
+    "trusted": ["yaml.v3, chroma, go-task/template and mvdan/sh themselves do not panic (every byte sequence reaches Task only through them); "
+                "yaml.v3 mapping nodes have an even number of children; the typed extractor /verif/extract2 enumerates index / slice / unchecked "
+                "assertion / Must* / panic expressions (nil-pointer dereferences and division are not enumerable syntactically: the decode "
+                "correspondence is what looks for those)"],
+    "assumptions": ["partial by scope: the theorem covers Task's own panic-capable expressions on the load/list/compile/resolve path; sh: variables "
+                    "are not evaluated by the harness (FastCompiledTask), remote includes are offline"],
+    "level_text": "Theorem (decide over the regenerated, typed table of every panic-capable expression on the path): each site is discharged by a "
+                  "recorded reason, no stale reasons; lemmas for the two non-obvious reasons (yaml children come in pairs; snippet bounds stay within "
+                  "both line lists). Termination from the total Lean models of load/merge and C07_terminates_all. Tie: node-shape grammar at every "
+                  "schema position, mutated real Taskfiles with CR/NEL/LS terminators, metacharacter names, run in a worker process through Setup / "
+                  "ListTasks / FastCompiledTask / GetTask; a panic (also in goroutines Task starts) or a time-out is a violation.",
+    "level_note": "Trusted: Lean kernel; extractor; third-party parsers; harness worker supervision.",
+}
+PROPS["C18"] = {
+    "lean": "Props.C18", "domains": [{"name": "race"}], "race": True,
+    "trusted": ["phase and confinement classification in extract2/classify.go (which functions run only while the program is single-threaded, which "
+                "objects are fresh per call / per command) — validated by the race-detector runs, not proved; syntactic, intraprocedural lockset "
+                "(a mutex counts as held from its Lock() statement to Unlock(), path-insensitive except for blocks that return)"],
+    "assumptions": ["partial by scope: a discipline proof over the extracted abstraction, not the Go memory model; third-party code and accesses through "
+                    "closures/interfaces are not in the table; the race search is bounded by the workloads of domain `race`"],
+    "level_text": "Theorem (decide over the regenerated access table): any two run-phase accesses to one non-confined field of which one is a write hold a "
+                  "common mutex, or the field is ordered by the done channel (C01_shared gives that order); every such write is under a mutex; the loop "
+                  "definition (rows included) is copied before matrix refs are resolved. Tie/search: the harness is built with -race and runs concurrent "
+                  "workloads (matrix refs from parallel deps, prefixed/group output, dynamic vars, dedup, includes, --parallel); a race report is a "
+                  "violation with the report as replay.",
+    "level_note": "Trusted: Lean kernel; typed extractor and its classification; Go race detector for the search half.",
+}
 
 
 def _has_meta(s):
